@@ -45,6 +45,9 @@ Definition umul (m : mode) (a b : Z) : outcome Z :=
 Definition usub (m : mode) (a b : Z) : outcome Z :=
   if b <=? a then Ok (a - b)
   else match m with Debug => Panic | Release => Ok ((a - b) mod USIZE) end.
+(* usize::wrapping_add, and checked_mul(..).ok_or(BadEof) *)
+Definition wadd (a b : Z) : outcome Z := Ok ((a + b) mod USIZE).
+Definition cmul (a b : Z) : outcome Z := if a * b <? USIZE then Ok (a * b) else Err Eof.
 Definition checked_add (a b : Z) : option Z := if a + b <? USIZE then Some (a + b) else None.
 
 (* the nine primitive big-endian types of src/binary.rs *)
